@@ -597,6 +597,49 @@ class C07(PropBase):
             nF += 1
         dist["by_kind"]["F"] = nF
         dist["frame_list_walker"] = nF
+        # front-end (g): WHOLE x86 walks from a context frame through generated stacks whose functions carry an FPO record
+        # (with / without base pointer) or a frame-data record with the .raSearch program, with / without FUNC record
+        # (parameter size), any recursion; frame layout [arguments for the callee][locals][saved registers][return address].
+        # Variants: the image cut short somewhere, the outermost return address below 4096.
+        RA_PROG = "$T0 .raSearch = $eip $T0 ^ = $esp $T0 4 + ="
+        nG = 700 if tier == "quick" else 7000
+        for gi in range(nG):
+            nf = rng.range(1, 4)
+            funs = []
+            for k in range(nf):
+                kind = rng.choice(["fpo0", "fpo1", "fd", "fd"])
+                sv = rng.choice([8, 12]) if kind == "fpo1" else rng.choice([0, 4, 8, 12])
+                funs.append(dict(kind=kind, sv=sv, lo=rng.choice([0, 4, 8]), ps=rng.choice([None, 0, 4, 8]), base=0x1000 * (k + 1)))
+            depth = rng.range(1, 6)
+            acts = [rng.below(nf) for _d in range(depth)]
+            img = bytearray(words(ESP, 96))
+            esp, gcps = ESP, 0
+            eip0 = MODBASE + funs[acts[0]]["base"] + 0x10
+            for j, fi in enumerate(acts):
+                fn = funs[fi]
+                F = fn["lo"] + fn["sv"] + gcps
+                if j + 1 < depth:
+                    ra = MODBASE + funs[acts[j + 1]]["base"] + 0x20 + 4 * j
+                else:
+                    ra = 100 if rng.chance(1, 6) else MODBASE + 0xF010
+                off = esp + F - ESP
+                img[off:off + 4] = ra.to_bytes(4, "little")
+                if fn["kind"] == "fpo1":
+                    so = esp + gcps + fn["sv"] - 8 - ESP
+                    img[so:so + 4] = (0x80000200 + 16 * j).to_bytes(4, "little")
+                esp, gcps = esp + F + 4, (fn["ps"] or 0)
+            if rng.chance(1, 4):
+                img = img[:4 * rng.range(1, (esp - ESP) // 4 + 2)]
+            recs = []
+            for fn in funs:
+                if fn["kind"] == "fd":
+                    recs.append(W("4", fn["base"], 256, fn["ps"] or 0, fn["sv"], fn["lo"], "1", RA_PROG))
+                else:
+                    recs.append(W("0", fn["base"], 256, fn["ps"] or 0, fn["sv"], fn["lo"], "0", "1" if fn["kind"] == "fpo1" else "0"))
+            fl = ";".join("%d 256 %d" % (fn["base"], fn["ps"]) for fn in funs if fn["ps"] is not None) or "-"
+            cases.append("|".join(["G", "eip=%d,esp=%d,ebp=%d,ebx=3,esi=5,edi=6" % (eip0, ESP, 0x80000100), str(ESP), bytes(img).hex(), fl] + recs))
+        dist["by_kind"]["G"] = nG
+        dist["whole_walks"] = nG
         return cases, dist, True
 
     # ------------------------------------------------------------------ oracle
@@ -609,6 +652,8 @@ class C07(PropBase):
         try:
             if f[0] == "A":
                 return self.oracle_mock(f, ans)
+            if f[0] == "G":
+                return self.oracle_walk(f, ans)
             if f[0] == "F":
                 return self.oracle_real(f[1:], ans, [] if f[1] == "." else f[1].split(","))
             return self.oracle_real(f, ans)
@@ -686,8 +731,50 @@ class C07(PropBase):
                     + ",".join(extra))
         return None
 
+    def oracle_walk(self, f, ans):
+        """whole walk: the documented STACK WIN semantics applied frame after frame (walker.rs docs: a frame has a grand-callee iff
+        it is not the context frame; callers are looked up inside the call instruction; x86: a caller frame needs eip >= 4096
+        and a stack pointer above the callee's; frames the unwinder produced are unwound only while their sp is in the stack)"""
+        ctx = C6.parse_regs(f[1])
+        base, img = int(f[2]), (bytes.fromhex(f[3]) if f[3] != "-" else b"")
+        mem = C6.mem_reader(4, base, img)
+        funcs = [] if f[4] == "-" else [tuple(int(x) for x in fu.split(" ")) for fu in f[4].split(";")]
+        fd, fpo, cfi = parse_recs(f[5:])
+        if cfi is not None:
+            return None
+        callee = {k: ctx[k] for k in ("eip", "esp", "ebp", "ebx") if k in ctx}
+        below, frames = [], []
+        for _step in range(64):
+            hasgc = len(below) > 0
+            gcps = (below[-1] or 0) if hasgc else 0
+            look = callee["eip"] - (1 if hasgc else 0) - MODBASE
+            if hasgc and not (base <= callee["esp"] < base + len(img)):
+                break
+            if not (0 <= look < 0x10000):
+                break
+            kind, regs = ref_win(fd, fpo, look, callee, mem, gcps, hasgc)
+            if kind != "win" or "eip" not in regs or "esp" not in regs or "ebp" not in regs:
+                break
+            if regs["eip"] < 4096 or regs["esp"] <= callee["esp"]:
+                break
+            frames.append((regs["eip"], regs["esp"], regs["ebp"]))
+            ps = None
+            for (fa, fs, fp) in funcs:
+                if fa <= look < fa + fs:
+                    ps = fp
+                    break
+            below.append(ps)
+            nxt = {"eip": regs["eip"], "esp": regs["esp"], "ebp": regs["ebp"]}
+            if "ebx" in regs:
+                nxt["ebx"] = regs["ebx"]
+            callee = nxt
+        want = "W;" + ";".join("%d,%d,%d" % fr for fr in frames)
+        if ans != want:
+            return "whole STACK WIN walk differs from the documented frame-by-frame semantics: got %s, documented %s" % (ans[:300], want[:300])
+        return None
+
     def nontrivial(self, case, ans):
-        return ans.startswith("S")
+        return ans.startswith("S") or (ans.startswith("W;") and len(ans) > 2)
 
 
 PROP = C07()
